@@ -41,7 +41,9 @@ def tree_hash():
         for root, dirs, fs in os.walk(base):
             dirs[:] = sorted(d for d in dirs if d not in ("target", ".git", "msrv-test"))
             for f in sorted(fs):
-                if f.endswith(".rs") or f in ("Cargo.toml", "Cargo.lock"):
+                # the harness crates' Cargo.lock is a copy of the repository's, rewritten by cargo while a build
+                # runs: hashing it would make the key flicker under a concurrent check
+                if f.endswith(".rs") or f == "Cargo.toml" or (f == "Cargo.lock" and base == REPO):
                     files.append(os.path.join(root, f))
     for p in files:
         h.update(p.encode())
